@@ -28,22 +28,50 @@ var addrRoles = []addrRole{
 		func(s string) (netip.AddrPort, error) { a, err := types.ParseBindAddr(s); return a.AddrPort, err },
 		func(a netip.AddrPort) string { return types.BindAddr{AddrPort: a}.String() },
 		func(s string) (netip.AddrPort, error) { var a types.BindAddr; err := a.Set(s); return a.AddrPort, err },
-		func(b []byte) (netip.AddrPort, error) { var a types.BindAddr; err := json.Unmarshal(b, &a); return a.AddrPort, err }},
+		func(b []byte) (netip.AddrPort, error) {
+			var a types.BindAddr
+			err := json.Unmarshal(b, &a)
+			return a.AddrPort, err
+		}},
 	{"broadcast", 60000, []int{0},
 		func(s string) (netip.AddrPort, error) { a, err := types.ParseBroadcastAddr(s); return a.AddrPort, err },
 		func(a netip.AddrPort) string { return types.BroadcastAddr{AddrPort: a}.String() },
-		func(s string) (netip.AddrPort, error) { var a types.BroadcastAddr; err := a.Set(s); return a.AddrPort, err },
-		func(b []byte) (netip.AddrPort, error) { var a types.BroadcastAddr; err := json.Unmarshal(b, &a); return a.AddrPort, err }},
+		func(s string) (netip.AddrPort, error) {
+			var a types.BroadcastAddr
+			err := a.Set(s)
+			return a.AddrPort, err
+		},
+		func(b []byte) (netip.AddrPort, error) {
+			var a types.BroadcastAddr
+			err := json.Unmarshal(b, &a)
+			return a.AddrPort, err
+		}},
 	{"listen", -1, []int{0, 60000},
 		func(s string) (netip.AddrPort, error) { a, err := types.ParseListenAddr(s); return a.AddrPort, err },
 		func(a netip.AddrPort) string { return types.ListenAddr{AddrPort: a}.String() },
-		func(s string) (netip.AddrPort, error) { var a types.ListenAddr; err := a.Set(s); return a.AddrPort, err },
-		func(b []byte) (netip.AddrPort, error) { var a types.ListenAddr; err := json.Unmarshal(b, &a); return a.AddrPort, err }},
+		func(s string) (netip.AddrPort, error) {
+			var a types.ListenAddr
+			err := a.Set(s)
+			return a.AddrPort, err
+		},
+		func(b []byte) (netip.AddrPort, error) {
+			var a types.ListenAddr
+			err := json.Unmarshal(b, &a)
+			return a.AddrPort, err
+		}},
 	{"controller", 60000, []int{0},
 		func(s string) (netip.AddrPort, error) { a, err := types.ParseControllerAddr(s); return a.AddrPort, err },
 		func(a netip.AddrPort) string { return types.ControllerAddr{AddrPort: a}.String() },
-		func(s string) (netip.AddrPort, error) { var a types.ControllerAddr; err := a.Set(s); return a.AddrPort, err },
-		func(b []byte) (netip.AddrPort, error) { var a types.ControllerAddr; err := json.Unmarshal(b, &a); return a.AddrPort, err }},
+		func(s string) (netip.AddrPort, error) {
+			var a types.ControllerAddr
+			err := a.Set(s)
+			return a.AddrPort, err
+		},
+		func(b []byte) (netip.AddrPort, error) {
+			var a types.ControllerAddr
+			err := json.Unmarshal(b, &a)
+			return a.AddrPort, err
+		}},
 }
 
 var exactForm = regexp.MustCompile(`^([0-9]{1,3})\.([0-9]{1,3})\.([0-9]{1,3})\.([0-9]{1,3})(?::([0-9]{1,5}))?$`)
